@@ -4,7 +4,7 @@
 # usage: tools/mutation_sanity.sh [ID ...]
 cd "$(dirname "$0")/.." || exit 2
 S=${TMPDIR:-/tmp}/verif-mut-$$
-trap 'rm -rf "$S"' EXIT
+trap 'rm -rf "$S" "$S.ev"' EXIT
 mut() { # id file python-regex-from to
   local id=$1 f=$2 from=$3 to=$4
   rm -rf "$S"; mkdir -p "$S"; rsync -a --exclude .git /repo/ "$S/"
@@ -15,7 +15,7 @@ s=open(p).read()
 if a not in s: sys.exit(1)
 open(p,'w').write(s.replace(a,b,1))
 PY
-  out=$(VERIF_REPO="$S" VERIF_DIR=/verif ./bin/gosym check "$id" --tier quick 2>&1)
+  out=$(VERIF_REPO="$S" VERIF_DIR=/verif VERIF_EVIDENCE_DIR="$S.ev" ./bin/gosym check "$id" --tier quick 2>&1)
   if echo "$out" | grep -q "^VIOLATION property=$id"; then echo "MUT $id: detected ($(echo "$out" | grep -m1 '^VIOLATION' | cut -c1-160))"; else echo "MUT $id: NOT detected"; echo "$out" | tail -5 | cut -c1-400; fi
 }
 want() { [ $# -eq 0 ] && return 0; }
